@@ -313,7 +313,13 @@ func TestSelectors(t *testing.T) {
 	}
 
 	// ID queries: every site must agree with regexp.MatchString
-	for _, re := range []string{"^m-01$", "m-.*[02]$", "m-0[0-3]|m-11", "", "^$", "m"} {
+	// the shapes a regexp can take around a literal: unanchored, anchored on one or both sides (^$, \A\z, a group), quoted
+	// meta characters, case folding; the literals are proper sub-strings of several IDs, so that "is the ID" and "is inside
+	// the ID" differ
+	for _, re := range []string{
+		"^m-01$", "m-.*[02]$", "m-0[0-3]|m-11", "", "^$", "m",
+		"^m-0$", "^m-0", "-01$", "^01$", `\Am-1\z`, `\Am-01\z`, "^(m-01)$", "^(?:m-0)$", `^m\-0$`, `^m\-01$`, "(?i)^M-01$", "(?i)^M-0$", "^m$", "01",
+	} {
 		var opts []state.ListOption
 
 		ref := []string{}
